@@ -186,10 +186,9 @@ def _worker_init():
     # pin every worker to one core *before* jax is imported: XLA sizes its thread pools from the
     # schedulable CPUs, and 16 workers x 16 threads thrash otherwise
     try:
-        ident = mp.current_process()._identity
         cpus = sorted(os.sched_getaffinity(0))
-        if ident and cpus:
-            os.sched_setaffinity(0, {cpus[(ident[0] - 1) % len(cpus)]})
+        if cpus:
+            os.sched_setaffinity(0, {cpus[os.getpid() % len(cpus)]})
     except Exception:
         pass
 
